@@ -59,8 +59,11 @@ func (a *SAgent) Add(key agent.AddedKey) error {
 	if a.lock {
 		return errS
 	}
-	signer, err := ssh.NewSignerFromKey(key.PrivateKey)
-	if err != nil {
+	var signer ssh.Signer
+	var err error
+	if sk, ok := key.PrivateKey.(*SKSigner); ok {
+		signer = sk
+	} else if signer, err = ssh.NewSignerFromKey(key.PrivateKey); err != nil {
 		return err
 	}
 	if key.Certificate != nil {
